@@ -417,6 +417,8 @@ def check(run):
     check_stale_loop_variables(run, A, ('pb_bss.extraction.mask_module',))
     from ..opt import check_extent_loops
     check_extent_loops(run, A, ('pb_bss.extraction.mask_module',))
+    from ..opt import check_result_buffers
+    check_result_buffers(run, A, ('pb_bss.extraction.mask_module',))
     check_forwarding(run, A, ('pb_bss.extraction.mask_module',))
     check_params_reach(run, A, ('pb_bss.extraction.mask_module',))
     check_optional_truthiness(run, A, ('pb_bss.extraction.mask_module',))
